@@ -11,6 +11,7 @@ import sys
 import cnfgen
 from cnfgen.graphs import (BipartiteGraph, DirectedGraph, Graph, readGraph,
                            writeGraph)
+from cnfgen.clitools.graph_args import make_graph_from_spec
 
 from detsim.core import Violation, call, exc_signature
 from detsim.refmodels import graphref
@@ -146,7 +147,7 @@ def generate(rng, config):
 
 def _gen_load(rng, fmt):
     return {"how": rng.choice(["file", "file", "stream", "from_file",
-                               "from_file_stream"]),
+                               "from_file_stream", "spec", "spec"]),
             "explicit": rng.random() < 0.5,
             "chunk": rng.choice([None, None, 1, 2, 3, 7]),
             "as_dag": rng.random() < 0.3}
@@ -245,6 +246,17 @@ def _load(data, case, fs, ctx, gtype, plan_extra=None):
         how = ld["how"]
         if how in ("from_file", "from_file_stream") and gtype == "dag":
             how = "file" if how == "from_file" else "stream"
+        if how == "spec":
+            # the graph argument '<file>' / '<format> <file>' of the tools
+            if gtype == "digraph":
+                how = "file"
+            else:
+                fs.put(name, data, plan=plan)
+                spec = [fmt, name] if ld["explicit"] else [name]
+                r = call(make_graph_from_spec, gtype, spec)
+                if r[0] == "exc" and isinstance(r[1], FileNotFoundError):
+                    raise RuntimeError("harness: file not found %r" % name)
+                return r
         if how == "file":
             fs.put(name, data, plan=plan)
             return call(readGraph, name, gtype, ffmt)
